@@ -15,6 +15,9 @@ pub fn profile(name: &str) -> Option<GenFn> {
         "stream" => genp::stream,
         "liveness" => genp::liveness,
         "kinds" => genp::kinds,
+        "tree" => genp::tree,
+        "faults" => genp::faults,
+        "svcfaults" => genp::svcfaults,
         _ => return None,
     })
 }
